@@ -131,6 +131,7 @@ type WorkerStats struct {
 	FeasQueries   int
 	FeasUnknown   int
 	AssertQueries int
+	Preemptions   int
 }
 
 type workItem struct {
